@@ -142,9 +142,13 @@ func verifyFunctionOpt(P *Program, fn *ssa.Function, props []string, opt func(*E
 		}
 		for j, k := range sl {
 			nm := fmt.Sprintf("in.%s.%d", pname, j)
-			if k == SBool {
+			switch k {
+			case SBool:
 				v[j] = c.Var(nm, Bool)
-			} else {
+			case SF32, SF64:
+				// floats enter as bit patterns (so that models are plain bit-vectors)
+				v[j] = e.fpFromBits(c.Var(nm, BV(k.width())))
+			default:
 				v[j] = c.Var(nm, BV(int(k)))
 			}
 		}
@@ -315,9 +319,12 @@ func (e *Exec) freshVal(T types.Type, what string) Val {
 	sl := e.P.lay.slots(T)
 	v := make(Val, len(sl))
 	for j, k := range sl {
-		if k == SBool {
+		switch k {
+		case SBool:
 			v[j] = e.c.Fresh(what, Bool)
-		} else {
+		case SF32, SF64:
+			v[j] = e.fpFromBits(e.c.Fresh(what, BV(k.width())))
+		default:
 			v[j] = e.c.Fresh(what, BV(int(k)))
 		}
 	}
